@@ -27,7 +27,7 @@ from common import Check, run_tlc, run_oalv_parallel
 def variants_of(prog, rng, tier, all_perms=False, all_abstractions=False):
     """(rewrite name, program, render options)"""
     out = []
-    for st in (1, 2, 3):
+    for st in (1, 2, 3, 4):
         out.append(("trivia-style-%d" % st, prog, {"style": st}))
     for q in (progs.permutations_of(prog, limit=30, rng=rng) if all_perms else progs.permutations_of(prog, limit=3, rng=rng)[:2]):
         out.append(("permute-declarations", q, {}))
@@ -184,7 +184,7 @@ def run(tier):
     chk.cov["evaluations"] = pairs
     chk.cov["distinct_nontrivial"] = len(sel) + len(groups)
     chk.notes["pairs_per_rewrite"] = per_rewrite
-    chk.cov["rule"] = ("accepted members of the PosShape/FnPos families (a seeded sample) x rewrites {3 trivia styles, 2 permutations, consistent renaming, renaming of one binder at a time (alpha-conversion), renaming a local declaration to a name an unqualified import exports, parenthesise all / "
+    chk.cov["rule"] = ("accepted members of the PosShape/FnPos families (a seeded sample) x rewrites {4 trivia styles (the fourth cycles through 13 block-comment shapes: empty, runs of stars at either end and inside, slashes, several lines, adjacent comments), 2 permutations, consistent renaming, renaming of one binder at a time (alpha-conversion), renaming a local declaration to a name an unqualified import exports, parenthesise all / "
                        "one, name-with-let, wrap-in-function, abstract-subterm (beta-expansion), inline-let, move-to-module}; the same on the RecInst and DynScope families and on seeded random composite programs (those the compiler accepts) + for every (position, shape) the let / identity-function / imported variants "
                        "against the direct one; evaluations = (original, rewritten) pairs compiled and compared; non-trivial = distinct originals")
     if cases:
